@@ -16,7 +16,7 @@ from __future__ import annotations
 import json
 import os
 import random
-from concurrent.futures import ProcessPoolExecutor
+from concurrent.futures import ProcessPoolExecutor, ThreadPoolExecutor
 from typing import Any
 
 from harness import tlc
@@ -182,6 +182,10 @@ def signature(t: dict[str, Any], label: str, j: int) -> dict[str, Any]:
         if m["warn"] is not None and "database: " in m["warn"]:
             # class of the exception the warning reports (why the row was not written)
             sig["lost_because"] = m["warn"].split("database: ", 1)[1].split("(", 1)[0][:40]
+        if label == "B2/reply-bytes" and len(t["rows"]) == len(t["exch"]) and e["replies"]:
+            r = t["rows"][j - 1]
+            a, b = len(r["resp"]), len(e["replies"][-1])
+            sig["stored"] = "null" if not r["hasResp"] else "shorter" if a < b else "longer" if a > b else "same-length"
     ab = t["aborts"]
     sig["abort"] = ab[0]["where"] if ab else "none"
     return sig
@@ -295,25 +299,15 @@ def run(tier: str, seed: int) -> Report:
         "statement silent -> every outcome accepted, counted as unspecified",
     ]
     # ---- 1. model checking of the design layer against the contract + negative controls
+    # (TLC subprocesses run in the background while the real runs are produced; results are
+    #  collected in a fixed order below)
     mcs = ["len2", "len3", "live"] + (["len3tags", "len4"] if thorough else [])
-    cov: dict[str, int] = {}
-    for c in mcs:
-        res = tlc.run_tlc("MC_DbLog", f"MC_DbLog_{c}.cfg", timeout=3000, coverage=(c == "len2"))
-        rep.add_tlc(res, f"MC_DbLog_{c}")
-        if c == "len2":
-            cov = {a: res.coverage.get(a, (0, 0))[1] for a in DESIGN_ACTIONS}
-        if not res.ok:
-            rep.violate(f"design/{res.violated}", {"where": "DbLog design layer", "cfg": c},
-                        {"cex": res.cex[-6:], "out": res.out[-1500:]})
-    never = [a for a, n in cov.items() if n == 0]
-    if never:
-        raise Machinery(f"design-layer actions never taken in MC_DbLog_len2: {never}")
-    rep.extra["design_action_coverage"] = cov
-    for c, expect in NEG_CONTROLS.items():
-        res = tlc.run_tlc("MC_DbLog", f"MC_DbLog_{c}.cfg", timeout=600)
-        rep.add_tlc(res, f"MC_DbLog_{c} (negative control)")
-        if res.violated not in expect:
-            raise Machinery(f"negative control {c} did not violate {expect} (got {res.violated}): contract is vacuous")
+    tp = ThreadPoolExecutor(max_workers=4)
+    mc_futs = {c: tp.submit(tlc.run_tlc, "MC_DbLog", f"MC_DbLog_{c}.cfg", timeout=3000, coverage=(c == "len2"),
+                            workers=(8 if c in ("len4", "len3tags") else 4))
+               for c in mcs}
+    neg_futs = {c: tp.submit(tlc.run_tlc, "MC_DbLog", f"MC_DbLog_{c}.cfg", timeout=600, workers=2)
+                for c in NEG_CONTROLS}
 
     # ---- 2. families of real runs
     specs_all = K.request_specs()
@@ -419,6 +413,27 @@ def run(tier: str, seed: int) -> Report:
     for i, t in enumerate(traces):
         t["id"] = i
         t["origin"] = origin[i]
+
+    # ---- 4a. collect the model-checking results
+    cov: dict[str, int] = {}
+    for c in mcs:
+        res = mc_futs[c].result()
+        rep.add_tlc(res, f"MC_DbLog_{c}")
+        if c == "len2":
+            cov = {a: res.coverage.get(a, (0, 0))[1] for a in DESIGN_ACTIONS}
+        if not res.ok:
+            rep.violate(f"design/{res.violated}", {"where": "DbLog design layer", "cfg": c},
+                        {"cex": res.cex[-6:], "out": res.out[-1500:]})
+    never = [a for a, n in cov.items() if n == 0]
+    if never:
+        raise Machinery(f"design-layer actions never taken in MC_DbLog_len2: {never}")
+    rep.extra["design_action_coverage"] = cov
+    for c, expect in NEG_CONTROLS.items():
+        res = neg_futs[c].result()
+        rep.add_tlc(res, f"MC_DbLog_{c} (negative control)")
+        if res.violated not in expect:
+            raise Machinery(f"negative control {c} did not violate {expect} (got {res.violated}): contract is vacuous")
+    tp.shutdown()
 
     # ---- 4. code -> spec: TLC validates every run
     verdicts = validate(traces, rep)
